@@ -22,7 +22,11 @@ RULE = ('random sets of <units> definitions written as CellML 1.0 documents and 
         'schema (leading underscores, store1_x, names containing built-in names, Python keywords); 30 % of the cases '
         'carry one injected fault (cycle, dangling reference, duplicate name, built-in override, non-zero offset) and '
         'must raise in every order; plus the exhaustive tier: every key of UNIT_PREFIXES x 7 exponents x 4 multipliers '
-        'on one <unit> element (deca, which the schema does not allow, through the public UnitStore API). '
+        'on one <unit> element (deca, which the schema does not allow, through the public UnitStore API); zero offsets '
+        'in every lexical form of xsd:decimal on valid documents; plus the offset test alone (float(offset) != 0) on '
+        'arbitrary ASCII text - signs, points, exponents, underscores, inf/nan, the underflow boundary 2^-1075, text that '
+        'is not a number - through Parser._make_pint_unit_definition on one <unit> element (the schema validation of '
+        'load_model lets only xsd:decimal through). '
         'non-trivial = a fault, or a chain of depth >= 2 loaded in an order that makes the work list re-queue; '
         'distinct = distinct case JSON')
 TRUSTED = ['Lean 4.33 kernel', 'axioms: propext, Classical.choice, Quot.sound',
@@ -58,6 +62,11 @@ FIXED_NAMES = [n for n in FIXED_NAMES if re.fullmatch(r'_*[0-9a-zA-Z][_0-9a-zA-Z
 WORDCH = 'abcdefghijklmnopqrstuvwxyzABCDEFGHIJKLMNOPQRSTUVWXYZ0123456789___'
 LETTER = 'abcdefghijklmnopqrstuvwxyzABCDEFGHIJKLMNOPQRSTUVWXYZ'
 FAULTS = ['cycle', 'dangling', 'duplicate', 'builtin', 'offset']
+# spellings of ZERO that the schema (xsd:decimal, value 0.0) allows for the offset attribute; cellmlmanip reads the
+# attribute with float() since the repair of finding valid-rejected:zero-offset-spelling (before: only digit strings)
+ZERO_OFFSETS = ['0', '0', '00', ' 0 ', '0.0', '0.00', '+0', '-0', '0.', '.0', '-0.0', ' +0.000 ']
+# non-zero offsets, among them magnitudes below 1 (a test `int(float(offset)) != 0` would accept those)
+NONZERO_OFFSETS = ['273.15', '1', '-3', '0.5', '32', '1.0', '-0.001', '100', '5', '-0.5', '0.25', '.5', '+0.001', '0.000001']
 RESERVED = set(U.SI) | {'celsius'}
 
 
@@ -160,7 +169,7 @@ def rand_elem(rng, ref, p_prefix=0.5, p_exp=0.5, p_mult=0.35):
     if rng.random() < p_mult:
         e['multiplier'] = rng.choice(MULTIPLIERS)
     if rng.random() < 0.05:
-        e['offset'] = rng.choice(['0', '0', '00', ' 0 '])
+        e['offset'] = rng.choice(ZERO_OFFSETS)   # zero in every lexical form of xsd:decimal: must all be accepted
     return e
 
 
@@ -261,7 +270,7 @@ def inject(rng, defs, fault):
             new = {'kind': 'base', 'store': 0, 'name': b}
         return defs + [new], 'definition of built-in %s' % b
     if fault == 'offset':
-        off = rng.choice(['273.15', '1', '-3', '0.5', '32', '1.0', '-0.001', '100', '5'])
+        off = rng.choice(NONZERO_OFFSETS)
         if users and rng.random() < 0.5:
             d = rng.choice(users)
             rng.choice(d['elems'])['offset'] = off
@@ -314,6 +323,8 @@ def exhaustive_cases(rng, n_perms):
 def gen(rng, n, tier):
     for c in exhaustive_cases(rng, 1 if tier == 'quick' else 3):
         yield c
+    for _ in range(max(2, n // 100)):
+        yield offset_case([rand_offset_text(rng) for _ in range(60)])
     for _ in range(n):
         yield gen_case(rng)
 
@@ -331,7 +342,9 @@ def gen_case(rng):
 
 
 def known_shape(rng, defs):
-    """valid according to the specification, but one of the recorded weaknesses of the implementation"""
+    """valid according to the specification, but one of the recorded weaknesses of the implementation (digit-leading
+    names, dimensionless x dimensional: known findings) or a weakness that was repaired (zero offsets spelled with a sign
+    or a point: fixed, the oracle demands that they load)"""
     used = {d['name'] for d in defs}
     k = rng.choice(['digit', 'offset', 'mix'])
     if k == 'digit':
@@ -343,12 +356,118 @@ def known_shape(rng, defs):
         return defs, 'reference to digit-leading name ' + n
     if k == 'offset':
         defs = defs + [{'kind': 'def', 'store': 0, 'name': fresh_name(rng, used),
-                        'elems': [dict(rand_elem(rng, 'kelvin'), offset=rng.choice(['0.0', '0.00', '+0', '-0', '0.']))]}]
+                        'elems': [dict(rand_elem(rng, 'kelvin'), offset=rng.choice(['0.0', '0.00', '+0', '-0', '0.', '.0', '-0.0']))]}]
         return defs, 'zero offset spelled with a sign or a point'
     defs = defs + [{'kind': 'def', 'store': 0, 'name': fresh_name(rng, used),
                     'elems': [{'units': 'dimensionless', 'multiplier': rng.choice(MULTIPLIERS)},
                               rand_elem(rng, rng.choice(['metre', 'second', 'volt']))]}]
     return defs, 'dimensionless times a dimensional unit'
+
+
+# ------------------------------------------------------------------------------------------------ the offset test alone
+# `load_model` validates against the RELAX NG schema first, so only xsd:decimal text reaches the offset test through the
+# public API. The model (Units.offsetRejected = python's float() on ASCII text, Units.floatText / roundsToZero) and the
+# source tie speak about EVERY text; these cases compare them with Parser._make_pint_unit_definition itself on one
+# <unit> element whose offset is arbitrary ASCII text (signs, points, exponents, PEP 515 underscores, inf / nan, the
+# underflow boundary 2^-1075 where float() starts to answer 0.0, text that is not a number).
+TWO_M1075 = Fraction(1, 2 ** 1075)
+
+
+def _exact_decimal(fr):
+    """exact decimal expansion of a fraction whose denominator is a power of two"""
+    k = 0
+    while fr.denominator != 1:
+        fr *= 10
+        k += 1
+    digits = str(fr.numerator).rjust(k + 1, '0')
+    return digits[:-k] + '.' + digits[-k:] if k else digits
+
+
+OFFSET_TEXTS = (ZERO_OFFSETS + NONZERO_OFFSETS + [
+    '0e0', '0E5', '-0e-7', '0.0e+3', '00.00', '+.0', '-.0e1', '1e-3', '1E2', '5e-1', '0.5e0', '1e-400', '-1e-400',
+    '1e-323', '4.9e-324', '2.5e-324', '2.4e-324', '2.4703282292062327e-324', '2.4703282292062328e-324',
+    '0.' + '0' * 330 + '1', '0.' + '0' * 322 + '1', '1e400', '-1e999',
+    _exact_decimal(TWO_M1075), _exact_decimal(TWO_M1075)[:-1] + '6', _exact_decimal(TWO_M1075)[:-1] + '4',
+    'inf', '-inf', '+Infinity', 'INF', 'nan', '-NaN', 'infinit', 'in f', 'na', 'nane',
+    '0_0', '1_0', '0_0.0_0', '1_000.5', '0__0', '_0', '0_', '0._0', '0_.0', '0e_1', '0e1_0', '1_e1', '+_0', '0x0', '0x1p3',
+    '', ' ', '+', '-', '.', 'e', 'e0', '0e', '0e+', '.e1', '+-0', '--0', '0 0', '0,0', '0.0.0', '0e0e0', 'zero', 'abc',
+    '1/2', '0/5', '0j', '0.0f', '0d', 'O', 'o.o', '  0.00  ', '   ', '1 ', ' -0 '])
+OFFSET_ALPHABET = list('0123456789') * 2 + list('000..++--eE__  ') + list('infatyINFx1')
+
+
+def rand_offset_text(rng):
+    r = rng.random()
+    if r < 0.35:      # a decimal literal, often zero, in a random spelling
+        ip = rng.choice(['', '0', '00', '000', str(rng.randint(0, 30))])
+        fp = rng.choice(['', '0', '00', '000000', '5', '001', '0' * rng.randint(1, 12) + str(rng.randint(0, 3))])
+        body = ip + rng.choice(['', '.']) + fp if rng.random() < 0.7 else ip + '.' + fp
+        if rng.random() < 0.4:
+            body += rng.choice('eE') + rng.choice(['', '+', '-']) + str(rng.randint(0, 400))
+        if rng.random() < 0.15 and len(body) > 2:
+            i = rng.randrange(1, len(body))
+            body = body[:i] + '_' + body[i:]
+        return rng.choice(['', ' ']) + rng.choice(['', '', '+', '-']) + body + rng.choice(['', ' '])
+    if r < 0.5:
+        return rng.choice(OFFSET_TEXTS)
+    return ''.join(rng.choice(OFFSET_ALPHABET) for _ in range(rng.randint(0, 7)))
+
+
+def offset_case(texts):
+    return {'kind': 'offset', 'texts': list(texts), 'fault': None, 'what': 'offset test on %d texts' % len(texts)}
+
+
+def impl_offset(case):
+    """Parser._make_pint_unit_definition on ONE element with the given offset text: accepted / refused (exception class)"""
+    from cellmlmanip.parser import Parser
+    out = []
+    for t in case['texts']:
+        try:
+            expr = Parser._make_pint_unit_definition(None, 'u', [{'units': 'kelvin', 'offset': t}])
+            out.append({'outcome': 'accepted', 'expr': expr})
+        except Exception as e:
+            out.append({'outcome': 'err:' + type(e).__name__})
+    return {'offsets': out}
+
+
+_DECIMAL_LITERAL = re.compile(r'^ *[+-]?([0-9]+\.?[0-9]*|\.[0-9]+)([eE][+-]?[0-9]+)? *$')
+
+
+def oracle_offset(case, obs):
+    """an offset that denotes zero must be accepted (and the element means what it means without it), one that denotes
+    a non-zero number or no number at all must be refused with ValueError. Exact arithmetic (Fraction of Decimal); no
+    judgement in the band 0 < |x| <= 2^-1075 that binary64 cannot tell from zero, nor on text with digits that is
+    not a plain decimal literal (underscores, hex …)."""
+    fails = []
+    for t, o in zip(case['texts'], obs['offsets']):
+        want = None
+        if _DECIMAL_LITERAL.match(t):
+            v = Fraction(Decimal(t.strip(' ')))
+            want = 'accepted' if v == 0 else 'refused' if abs(v) > TWO_M1075 else None
+        elif not any(c.isdigit() for c in t):
+            want = 'refused'
+        if want == 'accepted' and o['outcome'] != 'accepted':
+            fails.append({'key': 'valid-rejected:zero-offset-spelling',
+                          'detail': 'offset=%r denotes zero but is refused (%s)' % (t, o['outcome'])})
+        elif want == 'accepted' and o.get('expr') != 'kelvin':
+            fails.append({'key': 'offset-changes-meaning', 'detail': 'offset=%r: expression %r' % (t, o.get('expr'))})
+        elif want == 'refused' and o['outcome'] != 'err:ValueError':
+            fails.append({'key': 'fault-accepted:offset',
+                          'detail': 'offset=%r does not denote zero, outcome %s' % (t, o['outcome'])})
+    return fails[:6]
+
+
+def compare_offset(case, obs, replies):
+    for t, o, rep in zip(case['texts'], obs['offsets'], replies):
+        if not isinstance(rep, list) or len(rep) != 2 or str(rep[0]) != 'offset':
+            return 'offset %r: model reply malformed: %r' % (t, rep)
+        model = str(rep[1])
+        got = 'accepted' if o['outcome'] == 'accepted' else 'refused'
+        if model != got:
+            return 'offset %r: model %s, implementation %s' % (t, model, o['outcome'])
+        if got == 'refused' and o['outcome'] != 'err:ValueError':
+            return 'offset %r: model ValueError, implementation %s' % (t, o['outcome'])
+    return None
+
 
 
 def corpus():
@@ -374,6 +493,15 @@ def corpus():
     add([D('metre', {'units': 'second'})], 'builtin', 'override alias', perms=[[0]])
     add([B('litre')], 'builtin', 'override by base unit', perms=[[0]])
     add([D('fahr', {'units': 'kelvin', 'multiplier': '0.5555', 'offset': '255.37'})], 'offset', 'offset', perms=[[0]])
+    # the offset test reads the attribute as a number: every spelling of zero is accepted (and means nothing) ...
+    add([D('z%d' % i, {'units': 'kelvin', 'prefix': 'milli', 'offset': z}) for i, z in enumerate(sorted(set(ZERO_OFFSETS)))] +
+        [D('zz', {'units': 'z0', 'exponent': '2', 'offset': '0.0'}, {'units': 'second', 'offset': '-0'})],
+        what='zero offsets in every spelling', perms=[list(range(len(set(ZERO_OFFSETS)) + 1)), list(range(len(set(ZERO_OFFSETS)) + 1))[::-1]])
+    # ... and every non-zero number is refused, also below 1 in magnitude
+    for off in ('0.5', '-0.5', '0.001', '.5', '1'):
+        add([D('frac', {'units': 'kelvin', 'offset': off}), D('ok', {'units': 'second'})], 'offset', 'offset ' + off,
+            perms=[[0, 1], [1, 0]])
+    cases.append(offset_case(OFFSET_TEXTS))
     return cases
 
 
@@ -436,6 +564,8 @@ def impl(case):
     import logging
     logging.disable(logging.CRITICAL)
     import cellmlmanip
+    if case['kind'] == 'offset':
+        return impl_offset(case)
     defs = case['defs']
     out = []
     if case.get('direct'):
@@ -470,6 +600,8 @@ def def_sx(d):
 
 
 def requests(case, obs):
+    if case['kind'] == 'offset':
+        return [sx(['C03', 'offset', Str(t)]) for t in case['texts']]
     return [sx(['C03', ['id', 0], ['defs'] + [def_sx(case['defs'][i]) for i in order]]) for order in case['perms']]
 
 
@@ -479,6 +611,8 @@ MODEL_ERR_OK = {'ValueError': ('ValueError',), 'UndefinedUnitError': MANGLED, 'B
 
 
 def compare(case, obs, replies):
+    if case['kind'] == 'offset':
+        return compare_offset(case, obs, replies)
     for k, (order, o, rep) in enumerate(zip(case['perms'], obs['perms'], replies)):
         where = 'order %d %s' % (k, [case['defs'][i]['name'] for i in order])
         if not isinstance(rep, list) or not rep:
@@ -549,6 +683,8 @@ def oracle(case, obs):
     """CellML 1.1 section 5: every user unit is the product over its <unit> children of
     multiplier·(prefix·referenced unit)^exponent — evaluated by unitlib.oracle_family (mpmath, SI table written from
     the specification) — in every order; faulty sets are rejected in every order. No reference to the Lean model."""
+    if case['kind'] == 'offset':
+        return oracle_offset(case, obs)
     defs = case['defs']
     fails = []
     digit_refs = sorted({e['units'] for d in defs if d['kind'] == 'def' for e in d['elems'] if e['units'][:1].isdigit()})
@@ -655,12 +791,16 @@ def requeues(defs, order):
 
 
 def nontrivial(case, obs):
+    if case['kind'] == 'offset':
+        return len({o['outcome'] for o in obs['offsets']}) > 1
     if case['fault']:
         return True
     return chain_depth(case['defs']) >= 2 and any(requeues(case['defs'], p) for p in case['perms'])
 
 
 def tag(case, obs):
+    if case['kind'] == 'offset':
+        return 'offset-test'
     if case['fault']:
         return 'fault=' + case['fault']
     if case['kind'] == 'exhaustive':
@@ -673,6 +813,13 @@ def shrink(v):
     """drop definitions while the same oracle key still fails"""
     case = v['case']
     key = v['failures'][0]['key']
+    if case['kind'] == 'offset':
+        for t in case['texts']:
+            c2 = offset_case([t])
+            f2 = oracle_offset(c2, impl_offset(c2))
+            if any(f['key'] == key for f in f2):
+                return {'case': c2, 'failures': f2, 'obs': impl_offset(c2)}
+        return v
     defs = case['defs']
     if case['fault']:
         return v     # removing a definition could remove the injected fault itself
@@ -710,13 +857,14 @@ MANIFEST = {
              'equivalent to order-free conditions (worklist_loadable at full strength, worklist_complete_partial), hence '
              'worklist_perm_partial: a permutation changes neither whether the document loads nor the meaning of any '
              'name; (5) rejection at full strength: duplicate names, built-in override, rejected/non-zero offsets, '
-             'dangling references, cycles of any length all give an error. _partial = hypothesis that every REFERENCED '
+             'dangling references, cycles of any length all give an error; the offset test (float(offset) != 0) is exact '
+             '(offset_test_exact) and zero offsets in any spelling have no effect (zero_offsets_ignored). _partial = hypothesis that every REFERENCED '
              'name starts with a letter or underscore; counterexample digit_leading_reference_rejected is proved. '
              'The model is tied to parser.py/units.py by seeded correspondence through load_model on generated CellML '
              'documents (3 orders each, chains to depth 8, all prefixes, 10 exponents in several spellings, faults), '
-             'and an independent mpmath oracle of the specification formula searches for failing inputs. Two defects '
-             'found and fixed in /repo (base_units="no" treated as base unit; names ending in "__"), three known '
-             'findings (digit-leading names, offset="0.0", dimensionless x dimensional).'),
+             'and an independent mpmath oracle of the specification formula searches for failing inputs. Three defects '
+             'found and fixed in /repo (base_units="no" treated as base unit; names ending in "__"; zero offsets spelled '
+             '"0.0", "+0", "-0" refused), two known findings (digit-leading names, dimensionless x dimensional).'),
     'note': ('Trusted: Lean kernel; propext, Classical.choice, Quot.sound; the translator for UNIT_PREFIXES, '
              'cellml_units.txt, the schema prefix list, _CELLML_UNITS; the correspondence harness. pint 0.18 (expression '
              'parsing, root expansion) and lxml/RELAX NG validation are modelled or outside the model, not verified. '
